@@ -34,6 +34,11 @@ def cases(tier):
             if n == 5 and len(variant["links"]) > 1:
                 continue
             yield {"variant": variant, "n": n, "tier": tier}
+            if n in (2, 3) and len(variant["links"]) <= 1:
+                # residue ids counted from 0 (as polyply itself numbers split residues).  Only graphs whose residue 0 is the
+                # one-atom residue B: with several charge groups in residue 0 the dependency's merge_molecule offsets the charge
+                # groups of the later residues wrongly (DESIGN section 6, observation)
+                yield {"variant": variant, "n": n, "tier": tier, "starts": [0], "first_resname": "B"}
     yield from c01_extra.extra_cases(tier)
 
 
